@@ -75,6 +75,7 @@ class Path:
         self.trace = []
         self.label = "return"
         self.alias = {}        # local holding a reference -> normalised place text it points to
+        self.stores = []       # (reference term, stored value, number of calls made before) for `(*_x) = v`
 
 
 class Executor:
@@ -104,7 +105,10 @@ class Executor:
                     if mm:
                         cut = (i, int(mm.group(1)))
             if cut:
-                return ("field", self.place(p, txt[1:cut[0]]), cut[1])
+                base = self.place(p, txt[1:cut[0]])
+                if isinstance(base, tuple) and base[0] == "downcast" and isinstance(base[1], tuple) and base[1][0] == "agg" and base[1][1] == base[2] and str(cut[1]) in base[1][2]:
+                    return base[1][2][str(cut[1])]
+                return ("field", base, cut[1])
         m = re.fullmatch(r"\((.+) as (\w+)\)", txt)
         if m:
             return ("downcast", self.place(p, m.group(1)), m.group(2))
@@ -145,7 +149,7 @@ class Executor:
         lhs = lhs.strip()
         rhs = rhs.strip()
         val = None
-        m = re.fullmatch(r"(Add|Sub|Mul|Lt|Le|Gt|Ge|Eq|Ne)\((.+)\)", rhs)
+        m = re.fullmatch(r"(Add|Sub|Mul|Div|Rem|Lt|Le|Gt|Ge|Eq|Ne|BitAnd|BitOr|AddWithOverflow|SubWithOverflow|MulWithOverflow)\((.+)\)", rhs)
         if m:
             a, b = split_args(m.group(2))
             val = ("op", m.group(1), self.operand(p, a), self.operand(p, b))
@@ -153,7 +157,14 @@ class Executor:
             mm = re.fullmatch(r"(Neg|Not)\((.+)\)", rhs)
             val = ("un", mm.group(1), self.operand(p, mm.group(2)))
         elif rhs.startswith("discriminant("):
-            val = ("discr", self.place(p, rhs[len("discriminant("):-1]))
+            inner = self.place(p, rhs[len("discriminant("):-1])
+            known = {"Ok": 0, "Err": 1, "Continue": 0, "Break": 1, "None": 0, "Some": 1}
+            if isinstance(inner, tuple) and inner[0] == "agg" and inner[1] in known:
+                val = ("const", f"{known[inner[1]]}_isize")
+            elif isinstance(inner, tuple) and inner[0] == "some":
+                val = ("const", "1_isize")
+            else:
+                val = ("discr", inner)
         elif rhs.startswith("&mut ") or rhs.startswith("&raw "):
             val = ("mutref", rhs.split(" ", 1)[1].replace("mut ", "").strip())
             p.alias[lhs] = norm_place(val[1], p.alias)
@@ -173,6 +184,9 @@ class Executor:
                     k, v = f.split(":", 1)
                     fields[k.strip()] = self.operand(p, v)
             val = ("closure", mm.group(1) if mm else rhs, fields)
+        elif re.fullmatch(r"[A-Z][\w]*(::<.*>)?::[A-Z]\w*\((.+)\)", rhs):
+            mm = re.fullmatch(r"([A-Z][\w]*)(?:::<.*>)?::([A-Z]\w*)\((.+)\)", rhs)
+            val = ("agg", mm.group(2), {str(i): self.operand(p, a) for i, a in enumerate(split_args(mm.group(3)))})
         elif re.fullmatch(r"[^=]*::(Ok|Err|Continue|Break)\((.+)\)", rhs) and not rhs.startswith(("copy ", "move ")):
             mm = re.fullmatch(r"[^=]*::(Ok|Err|Continue|Break)\((.+)\)", rhs)
             val = ("agg", mm.group(1), {"0": self.operand(p, mm.group(2))})
@@ -195,6 +209,11 @@ class Executor:
         elif re.fullmatch(r"[A-Za-z_][\w:]*", rhs):
             ty = self.fn.locals.get(lhs, "?")
             val = ("variant", ty.split("::")[-1], rhs.split("::")[-1])
+        elif re.fullmatch(r"[A-Z][\w]*::<.*>::[A-Z]\w*", rhs):
+            val = ("agg", rhs.rsplit("::", 1)[1], {})
+        elif re.fullmatch(r"(PtrMetadata|Len|UnaryOp)\((.+)\)", rhs):
+            mm = re.fullmatch(r"(\w+)\((.+)\)", rhs)
+            val = ("call", mm.group(1), [self.operand(p, mm.group(2))])
         elif re.fullmatch(r"\[.*\]", rhs) or re.fullmatch(r"\(.*\)", rhs):
             inner = rhs[1:-1]
             val = ("tuple", [self.operand(p, x) for x in split_args(inner)])
@@ -212,7 +231,10 @@ class Executor:
                 base = p.env.get(m.group(1), ("sym", f"{self.fn.name}:{m.group(1)}"))
                 p.env[m.group(1)] = ("upd", base, int(m.group(2)), val)
             elif lhs.startswith("(*"):
-                pass  # store through a reference: not tracked (the analyses that use this executor do not read it back)
+                # store through a reference: not read back by later loads, but recorded for the analyses
+                m = re.match(r"\(\*(_\d+)\)", lhs)
+                if m:
+                    p.stores.append((p.env.get(m.group(1)), val, len(p.calls), lhs))
             else:
                 self.unknown.append("store: " + lhs)
 
@@ -229,6 +251,7 @@ class Executor:
         q.env = dict(p.env)
         q.cond = list(p.cond)
         q.calls = list(p.calls)
+        q.stores = list(p.stores)
         q.trace = list(p.trace)
         q.label = p.label
         q.alias = dict(p.alias)
@@ -328,6 +351,14 @@ class Executor:
                     v = self.place(p, v[1])
                 argterms.append(v)
             res = ("call", fname, argterms)
+            if fname.endswith("as Try>::branch") and argterms and isinstance(argterms[0], tuple) and argterms[0][0] == "agg":
+                a0 = argterms[0]
+                if a0[1] == "Ok":
+                    res = ("agg", "Continue", {"0": a0[2]["0"]})
+                elif a0[1] == "Err":
+                    res = ("agg", "Break", {"0": a0})
+            if "from_residual" in fname and argterms and isinstance(argterms[0], tuple) and argterms[0][0] == "agg" and argterms[0][1] == "Err":
+                res = argterms[0]
             p.calls.append((fname, argterms, res, list(p.cond), places))
             for loc in mutated:
                 p.env[loc] = ("mut", fname, p.env.get(loc, ("sym", f"{self.fn.name}:{loc}")), [a for a in argterms])
